@@ -120,6 +120,12 @@ func owners(op, what, why string) []string {
 		}
 		return []string{"C04"}
 	}
+	switch why { // block execution / commit entry while catching up after a crash or a rollback
+	case "crash":
+		return []string{"C07"}
+	case "rollback":
+		return []string{"C08"}
+	}
 	return []string{"C04"}
 }
 
